@@ -162,6 +162,9 @@ fn outcome_of_source(vm: &RootedThread, name: &str, src: &str) -> String {
 /// ` | var`
 fn same_modulo_generalisation(a: &str, b: &str) -> bool {
     fn norm(s: &str) -> String {
+        // (long types are printed over several lines)
+        let s = s.split_whitespace().collect::<Vec<_>>().join(" ");
+        let s = s.as_str();
         let mut out = String::new();
         let mut rest = s;
         // drop `forall a b . `
